@@ -6,6 +6,7 @@ package verifhook
 
 import (
 	"os"
+	"runtime"
 	"strings"
 	"time"
 )
@@ -17,6 +18,12 @@ func Gate(name string) {
 	if !ok || n != name {
 		return
 	}
+	// Let pending finalizers run before the scheduler lets other processes proceed:
+	// a resource that is only kept alive by an unreferenced object is released
+	// here deterministically and not at some later garbage collection.
+	runtime.GC()
+	runtime.GC()
+	time.Sleep(20 * time.Millisecond)
 	os.WriteFile(p+".reached", []byte(name), 0644)
 	for {
 		if _, err := os.Stat(p + ".release"); err == nil {
